@@ -183,23 +183,28 @@ def make_mac(pairs=(0, 5)):
 HOST_FORMS = ["short", "fqdn", "other-host"]
 
 
+SYSTEM_FQDNS = [K.FQDN, "myhost.lan", "myhost.dc1.corp.example.org"]      # three labels, two labels, five labels
+
+
 def make_hostname():
     def fn(en):
         A = _ctx_alpha()
         form = HOST_FORMS[en.choice("form", 3)]
+        fqdn = SYSTEM_FQDNS[en.choice("system_name", len(SYSTEM_FQDNS))]
+        domain = fqdn.split(".", 1)[1]
         pre = sstr.fresh_str_upto(en, "pre", 1, A)
         post = sstr.fresh_str_upto(en, "post", 1, A)
         if form == "short":
             tok = "myhost"
         elif form == "fqdn":
-            tok = K.FQDN
+            tok = fqdn
         else:
             label = sstr.fresh_str(en, "label", 1 + en.choice("llen", 2), "abcxyz019-_")
-            tok = cat(label, ".example.org")
+            tok = cat(label, "." + domain)
         line = cat(pre, tok, post)
-        case = lambda mv: {"kind": "hostname", "line": mv.str(line), "tokens": [mv.str(tok)], "form": form}  # noqa
+        case = lambda mv: {"kind": "hostname", "line": mv.str(line), "tokens": [mv.str(tok)], "form": form, "fqdn": fqdn}  # noqa
         en.note_sample(case)
-        cl = K.make_cleaner(K.Cfg(hostname=True, mac=False))
+        cl = K.make_cleaner(K.Cfg(hostname=True, mac=False), fqdn=fqdn)
         out = cl.clean_content([line])
         outline = out[0] if out else ""
         if form in ("short", "fqdn"):
@@ -213,7 +218,7 @@ def make_hostname():
             first = cps_of(tok)[0]
             starts_ok = f_not(f_or(first == 45, first == 46, first == 95))     # the pattern's first character must be alphanumeric
             left_ok = True if prev is None else f_not(nameish(prev))
-            leak = f_contains(outline, ".example.org")
+            leak = f_contains(outline, "." + domain)
             ok = f_or(f_not(f_and(left_ok, starts_ok)), f_not(leak))
             en.must_hold(ok if isinstance(ok, bool) else SBool(ok), "hostname-gone", case, detail="a host of the system's domain is still in the output")
     return fn
@@ -555,7 +560,8 @@ def _native(case):
                 tok not in [m["obfuscated"] for m in cl.obfuscate["mac"].mapping()]:
             bad.append("MAC address %s survives: %r -> %r" % (tok, case["line"], o))
     elif kind == "hostname":
-        cl = K.make_cleaner(K.Cfg(hostname=True, mac=False))
+        fq = case.get("fqdn", K.FQDN)
+        cl = K.make_cleaner(K.Cfg(hostname=True, mac=False), fqdn=fq)
         out = cl.clean_content([case["line"]])
         o = out[0] if out else ""
         if case["form"] in ("short", "fqdn"):
@@ -563,7 +569,7 @@ def _native(case):
                 bad.append("system host name survives: %r -> %r" % (case["line"], o))
         else:
             tok = case["tokens"][0]
-            if _re.search(r"(?<![-.\w])" + _re.escape(tok), case["line"]) and tok[0] not in "-._" and ".example.org" in o:
+            if _re.search(r"(?<![-.\w])" + _re.escape(tok), case["line"]) and tok[0] not in "-._" and ("." + fq.split(".", 1)[1]) in o:
                 bad.append("host %s of the domain survives: %r -> %r" % (tok, case["line"], o))
     elif kind == "keyword":
         cl = K.make_cleaner(K.Cfg(obfuscate=case["obfuscate"], hostname=False, mac=False), keywords=KEYWORDS)
